@@ -110,6 +110,7 @@ type fakeClient struct {
 	closeAt       []vbTime         // when each CloseStream call began
 	endAt         []vbTime         // when each asynchronous end notification was handed to the observer
 	closing       map[uint16]bool  // vBuckets for which a close request has arrived (reset by a successful OpenStream)
+	serverEnded   map[uint16]bool  // vBuckets whose stream the server ended on its own (reset by a successful OpenStream)
 }
 
 func newFakeClient(numVb int) *fakeClient {
@@ -201,6 +202,7 @@ func (f *fakeClient) OpenStream(vb uint16, coll map[uint32]string, off *models.O
 		}
 		f.live[vb] = true
 		delete(f.closing, vb)
+		delete(f.serverEnded, vb)
 		// what client.go's OpenStream callback does on success
 		o.SetVbUUID(f.failoverOf(vb)[0].VbUUID)
 		f.opens[len(f.opens)-1].UUID = uint64(f.failoverOf(vb)[0].VbUUID)
@@ -247,6 +249,12 @@ func (f *fakeClient) CloseStream(vb uint16) error {
 	f.mu.Unlock()
 	if onClose != nil {
 		onClose(vb)
+		// (the server may have ended this very stream on its own while the close request was on its way: nothing left to confirm)
+		f.mu.Lock()
+		if f.serverEnded[vb] {
+			wasLive = false
+		}
+		f.mu.Unlock()
 	}
 	if end && o != nil && wasLive && f.endAsync > 0 {
 		// the end notification reaches the observer on the connection's goroutine a little after the close was
@@ -308,6 +316,10 @@ func (f *fakeClient) serverEnd(vb uint16, cause error) {
 	f.mu.Lock()
 	o := f.obs[vb]
 	delete(f.live, vb)
+	if f.serverEnded == nil {
+		f.serverEnded = map[uint16]bool{}
+	}
+	f.serverEnded[vb] = true
 	f.mu.Unlock()
 	if o != nil {
 		o.End(models.DcpStreamEnd{VbID: vb}, cause)
